@@ -180,7 +180,7 @@ class SymCtx(_CtxBase):
 
     def zero(self, x, scale=None):
         if isinstance(x, SymBool):
-            raise TypeError("zero() of a boolean")
+            x = Sym.const(int(bool(x)))  # a boolean used as a number (numpy: True == 1)
         return mk_eq0(Sym.const(x))
 
     def is_true(self, b):
